@@ -419,3 +419,60 @@ def l4(ctx):
 
 
 RULES = [l1, l1s, l1d, l2, l3, l4]
+
+
+@rule("L5", doc="the parser accepts in every position of `b[x := t]` what the printer can print there: all three parts come from the substitution-level pattern parser")
+def l5(ctx):
+    crate = ctx.lib()
+    SUB = "rewrite::pattern::Pattern"
+    makers = []
+    for b in crate.fns():
+        if not (b.file or "").endswith("parse.rs"):
+            continue
+        for bi, si, s in b.statements():
+            if s["k"] == "assign" and s["rv"]["k"] == "agg" and s["rv"].get("adt") == SUB and s["rv"].get("variant") == "Subst":
+                makers.append(b)
+                break
+    C.need("function of parse.rs that builds Pattern::Subst", [b.id for b in makers])
+    top = {b.id for b in makers}
+    n = 0
+    for b0 in makers:
+        b = mir.inline_view(crate, b0)
+        for bi, si, s in b.statements():
+            if not (s["k"] == "assign" and s["rv"]["k"] == "agg" and s["rv"].get("adt") == SUB and s["rv"].get("variant") == "Subst"):
+                continue
+            n += 1
+            ops = s["rv"]["ops"]
+            for idx, what in ((1, "the substituted pattern x"), (2, "the replacement t")):
+                r = b.role_of_operand(ops[idx])
+                # the outermost parser call that produces the value (calls inside its token-cursor argument do not count)
+                parsers = set()
+
+                def producer(x, depth=0):
+                    x = strip_role(x)
+                    if not isinstance(x, tuple) or depth > 20:
+                        return
+                    if x[0] == "call":
+                        cs = b.call_at.get(x[4])
+                        tgt = cs.callee.target if cs is not None and cs.callee else None
+                        if tgt in crate.bodies and (crate.bodies[tgt].file or "").endswith("parse.rs") and "Pattern" in crate.bodies[tgt].local_ty(0):
+                            parsers.add(tgt)
+                            return
+                        if x[3]:
+                            producer(x[3][0], depth + 1)
+                    elif x[0] in ("field", "variant", "index"):
+                        producer(x[1], depth + 1)
+                    elif x[0] == "phi":
+                        for y in x[1]:
+                            producer(y, depth + 1)
+                    elif x[0] == "agg" and x[2]:
+                        producer(x[2][0], depth + 1)
+                producer(r)
+                ok = bool(parsers) and parsers <= top
+                ctx.check(ok, "subst-part-from-full-parser:%d" % idx, "%s of b[x := t] is parsed by the substitution-level parser (%s)" % (what, sorted(C.short(p) for p in parsers)),
+                          "%s of `b[x := t]` is parsed by %s, which cannot produce a substitution pattern, while Display prints any pattern there: `?b[?x[?y := ?z] := ?t]` is printed and then rejected by the parser (print/parse round-trip broken for well-formed patterns)" % (what, sorted(C.short(p) for p in parsers)),
+                          where_of(b, bi, s.get("line")))
+    ctx.floor("Pattern::Subst constructions in parse.rs", n, 1)
+
+
+RULES.append(l5)
